@@ -86,7 +86,7 @@ def run(prog: Program, ctx: Ctx) -> None:  # noqa: PLR0912,PLR0915
 
     def member(kind: str, *, alias: bool = False, broken: bool = False, label: str = "") -> Obj:
         attrs = {"name": "m", "is_alias": alias, "is_module": kind == "MODULE", "is_class": kind == "CLASS", "is_function": kind == "FUNCTION",
-                 "is_attribute": kind == "ATTRIBUTE", "path": "p.m", "runtime": True}
+                 "is_attribute": kind == "ATTRIBUTE", "path": "p.m", "runtime": True, "docstring": None}
         if broken:
             def boom(_i, _o):
                 raise Raised("AliasResolutionError")
@@ -250,6 +250,68 @@ def run(prog: Program, ctx: Ctx) -> None:  # noqa: PLR0912,PLR0915
             got = enclosing_catch(s)
             ctx.ob("R5", key(fo, "overload-target-guarded"), "KeyError" in got and catches_both(got),
                    "assigning overloads to a runtime name that is missing, or an unresolvable import, skips that name instead of aborting the merge", where(fo, s))
+
+    _merge_table(prog, ctx)
+
+
+def _merge_table(prog: Program, ctx: Ctx) -> None:
+    """R6: merge_stubs evaluated end to end on a runtime module and its stubs built with the models' own constructors, in both argument orders."""
+    ctx.rule("R6", "merging a stubs module into its runtime module (either argument order) returns the runtime module with: annotations and return types "
+                   "from the stubs, runtime docstrings kept and missing ones - the module's own included - taken from the stubs, runtime-only members "
+                   "kept, stub-only members added and marked as not available at run time")
+    M = "_griffe.models"
+    it = Interp(prog, max_depth=60, max_steps=3_000_000)
+    ms = prog.function(f"{MG}.merge_stubs")
+
+    def new(cls: str, *a: object, **k: object) -> Obj:
+        return it._construct(prog.cls(f"{M}.{cls}"), list(a), dict(k))
+
+    def setm(o: Obj, n: str, v: Obj) -> None:
+        it.call(prog.lookup_method(o.cls, "set_member")[0], o, n, v)
+
+    def doc(text: str | None) -> Obj | None:
+        return new("Docstring", text) if text else None
+
+    def build(suffix: str, typed: bool, docs: dict[str, str]) -> Obj:
+        t = (lambda x: x) if typed else (lambda _x: None)
+        m = new("Module", "m", filepath=PurePosixPath(f"/s/m{suffix}"), docstring=doc(docs.get("m")))
+        ps = new("Parameters", new("Parameter", "a", annotation=t("A")), new("Parameter", "b", annotation=t("B")))
+        setm(m, "f", new("Function", "f", parameters=ps, returns=t("R"), docstring=doc(docs.get("f"))))
+        setm(m, "x", new("Attribute", "x", annotation=t("X"), docstring=doc(docs.get("x"))))
+        k = new("Class", "K", docstring=doc(docs.get("K")))
+        setm(m, "K", k)
+        setm(k, "g", new("Function", "g", parameters=new("Parameters", new("Parameter", "self")), returns=t("G"), docstring=doc(docs.get("g"))))
+        return m
+
+    def text(o: Obj) -> str | None:
+        d = o.attrs.get("docstring")
+        return it.getattr(d, "value") if d is not None else None
+
+    for order in ("runtime first", "stubs first"):
+        rt = build(".py", False, {"f": "runtime f", "g": "runtime g"})
+        setm(rt, "only_runtime", new("Attribute", "only_runtime"))
+        st = build(".pyi", True, {"m": "stub module", "x": "stub x", "K": "stub K", "f": "stub f"})
+        setm(st, "only_stub", new("Attribute", "only_stub", annotation="S"))
+        try:
+            it.steps = 0
+            out = it.call(ms, rt, st) if order == "runtime first" else it.call(ms, st, rt)
+            mem = out.attrs["members"]
+            f, kk = mem["f"], mem["K"]
+            got = {
+                "returns the runtime module": out is rt, "members": sorted(mem), "module docstring": text(out), "f docstring": text(f), "f returns": f.attrs["returns"],
+                "f parameters": [(q.attrs["name"], q.attrs["annotation"]) for q in it._iterate(f.attrs["parameters"])],
+                "x": (mem["x"].attrs["annotation"], text(mem["x"])), "K docstring": text(kk), "K.g": (kk.attrs["members"]["g"].attrs["returns"], text(kk.attrs["members"]["g"])),
+                "only_stub available at run time": mem["only_stub"].attrs["runtime"],
+            }
+        except Raised as r:
+            got = {"raises": r.exc}
+        want = {
+            "returns the runtime module": True, "members": ["K", "f", "only_runtime", "only_stub", "x"], "module docstring": "stub module", "f docstring": "runtime f",
+            "f returns": "R", "f parameters": [("a", "A"), ("b", "B")], "x": ("X", "stub x"), "K docstring": "stub K", "K.g": ("G", "runtime g"),
+            "only_stub available at run time": False,
+        }
+        for k_, w_ in want.items():
+            ctx.ob("R6", f"merge|{order}|{k_}", got.get(k_) == w_, f"merge_stubs ({order}): {k_} = {got.get(k_, got)}; expected {w_}", where(ms))
 
 
 def _root(node: ast.AST) -> str | None:
